@@ -1,4 +1,5 @@
 """Rules over the reproc++ (cxx) configuration: C19, C15.D4, C16.G6."""
+import os
 import re
 from .facts import AnalysisBroken, strip, expr_str, TRANSPARENT, CALL_KINDS, load_program, repo_root
 from .absint import walk_nodes
@@ -533,9 +534,55 @@ def c19_containers(ctx, prog):
                ok and guard, {"delete[]": len(dels)})
 
 
+def c19_layout(ctx, prog):
+    """F7: the public types exist once: the headers an application compiles and the ones the library was compiled with describe the
+    same members at the same offsets whatever macros the application defines.  Lexical scan of the installed headers: no
+    preprocessor conditional inside the braces of a struct / class / union / enum definition (conditionals around whole
+    declarations - the handle typedef per platform, extern "C", export macros - are outside any such braces)."""
+    import glob
+    import re
+    root = prog.root
+    files = sorted(glob.glob(os.path.join(root, "reproc", "include", "reproc", "*.h")) + glob.glob(os.path.join(root, "reproc++", "include", "reproc++", "**", "*.hpp"), recursive=True))
+    hits = []
+    records = 0
+    for path in files:
+        text = open(path, errors="replace").read()
+        text = re.sub(r"/\*.*?\*/", lambda m: re.sub(r"[^\n]", " ", m.group(0)), text, flags=re.S)
+        text = re.sub(r"//[^\n]*", "", text)
+        text = re.sub(r'"(\\.|[^"\\\n])*"', '""', text)
+        stack = []          # one entry per open brace: True if it opens a record / enum definition
+        pending = ""        # text since the last ; { }
+        for ln, line in enumerate(text.split("\n"), 1):
+            if re.match(r"\s*#", line):
+                if re.match(r"\s*#\s*(if|ifdef|ifndef|elif|else)\b", line) and any(stack):
+                    hits.append("%s:%d %s" % (os.path.relpath(path, root), ln, line.strip()[:50]))
+                continue
+            for ch in line:
+                if ch == "{":
+                    is_rec = bool(re.search(r"\b(struct|class|union|enum)\b", pending)) and not re.search(r"\)\s*(const|noexcept|override)?\s*$", pending.strip())
+                    records += is_rec
+                    stack.append(is_rec)
+                    pending = ""
+                elif ch == "}":
+                    if stack:
+                        stack.pop()
+                    pending = ""
+                elif ch == ";":
+                    pending = ""
+                else:
+                    pending += ch
+            pending += " "
+    if len(files) < 6 or records < 10:
+        raise AnalysisBroken("C19.F7: only %d public headers / %d type definitions found" % (len(files), records))
+    ctx.ob("C19.F7", "public headers: type definitions", "no struct, class, union or enum of the installed headers has a preprocessor "
+           "conditional inside its definition: an application and the library always agree on every member and offset", not hits,
+           {"headers": len(files), "type_definitions": records, "conditionals_inside_definitions": hits[:4]})
+
+
 def check_c19(ctx):
     prog = ctx.prog("cxx")
     cprog = ctx.prog("posix-mt")
+    c19_layout(ctx, prog)
     c19_initialisers(ctx, prog)
     c19_converters(ctx, prog)
     c19_enums(ctx, prog, cprog)
